@@ -792,7 +792,8 @@ WRAP_R, WRAP_E = 'StoneResponse', 'StoneError'
 
 
 def option_sets(api, rng, full=True):
-    """[(backend, label, argv, model opts)] -- the option space of the property"""
+    """[(backend, label, argv, model opts)] -- the option space of the property. The two wrap options occur alone
+    (`options` / `import`: error only, `wrap`: response only) and together (`all`), so that reading one for the other shows"""
     schema = [f.name for f in api.route_schema.fields] if api.route_schema is not None else []
     acs = []
     for a in (rng.sample(schema, min(2, len(schema))) + ['nosuch_attr']):
@@ -800,7 +801,8 @@ def option_sets(api, rng, full=True):
     sets = [
         ('js_types', 'plain', ['types.js'], {'out': 'types.js'}),
         ('js_client', 'plain', ['client.mjs'], {'out': 'client.mjs'}),
-        ('js_client', 'options', ['client.mjs', '--request-options'], {'out': 'client.mjs', 'request_options': True}),
+        ('js_client', 'options', ['client.mjs', '--request-options', '--wrap-error-in', WRAP_E],
+         {'out': 'client.mjs', 'request_options': True, 'wrap_error': WRAP_E}),
         ('js_client', 'all', ['client.mjs', '--request-options', '--wrap-response-in', WRAP_R, '--wrap-error-in',
                               WRAP_E, '-c', 'StoneBase'] + acs,
          {'out': 'client.mjs', 'request_options': True, 'wrap_response': WRAP_R, 'wrap_error': WRAP_E}),
@@ -809,19 +811,19 @@ def option_sets(api, rng, full=True):
          {'filename': 'types.d.ts', 'export': True}),
         ('tsd_types', 'split', [T_TYPES], {'filename': None}),
         ('tsd_client', 'plain', [T_CLIENT, 'client.d.ts'], {'out': 'client.d.ts'}),
-        ('tsd_client', 'import', [T_CLIENT, 'client.d.ts', '--import-namespaces', '--types-file', './types'],
-         {'out': 'client.d.ts', 'import_ns': True}),
+        ('tsd_client', 'import', [T_CLIENT, 'client.d.ts', '--import-namespaces', '--types-file', './types',
+                                  '--wrap-error-in', WRAP_E], {'out': 'client.d.ts', 'import_ns': True, 'wrap_error': WRAP_E}),
     ]
     if full:
         sets += [
-            ('js_client', 'wrap', ['client.mjs', '--wrap-response-in', WRAP_R, '--wrap-error-in', WRAP_E],
-             {'out': 'client.mjs', 'wrap_response': WRAP_R, 'wrap_error': WRAP_E}),
+            ('js_client', 'wrap', ['client.mjs', '--wrap-response-in', WRAP_R],
+             {'out': 'client.mjs', 'wrap_response': WRAP_R}),
             ('js_client', 'attrs', ['client.mjs'] + acs, {'out': 'client.mjs'}),
             ('tsd_types', 'single_noerr', [T_TYPES, 'types.d.ts', '--exclude_error_types'],
              {'filename': 'types.d.ts', 'exclude_error': True}),
             ('tsd_types', 'split_noerr', [T_TYPES, '--exclude_error_types'], {'filename': None, 'exclude_error': True}),
-            ('tsd_client', 'wrap', [T_CLIENT, 'client.d.ts', '--wrap-response-in', WRAP_R, '--wrap-error-in', WRAP_E],
-             {'out': 'client.d.ts', 'wrap_response': WRAP_R, 'wrap_error': WRAP_E}),
+            ('tsd_client', 'wrap', [T_CLIENT, 'client.d.ts', '--wrap-response-in', WRAP_R],
+             {'out': 'client.d.ts', 'wrap_response': WRAP_R}),
             ('tsd_client', 'all', [T_CLIENT, 'client.d.ts', '--import-namespaces', '--types-file', './types',
                                    '--wrap-response-in', WRAP_R, '--wrap-error-in', WRAP_E] + acs,
              {'out': 'client.d.ts', 'import_ns': True, 'wrap_response': WRAP_R, 'wrap_error': WRAP_E}),
@@ -1071,18 +1073,27 @@ def py_repr_misread_by_js(s):
     return ''.join('U%08x' % ord(c) if ord(c) > 0xFFFF and not c.isprintable() else c for c in s)
 
 
+def defaults_close_comment(api):
+    """some String default contains `*/`: tsd_types echoes it into the doc comment `Defaults to ...`"""
+    return any(getattr(f, 'has_default', False) and isinstance(f.default, str) and '*/' in f.default
+               for ns in api.namespaces.values() for dt in ns.data_types for f in getattr(dt, 'fields', []) or [])
+
+
 class Judge:
     def __init__(self, api, ck=None):
         self.api = api
         self.ck = ck
         self.problems = []          # (what, signature, detail)
         self.ir = _ir()
-        self.injected = docs_close_comment(api)
+        self.inject_cause = 'doc_closes_comment' if docs_close_comment(api) else \
+            'default_closes_comment' if defaults_close_comment(api) else None
+        self.injected = self.inject_cause is not None
         self.unmodelled = None      # set by a judgement whose cause lies in a text layer the Lean model does not have
 
     def P(self, what, sig, **detail):
-        if self.injected and sig.get('kind') in ('malformed_output', 'js_syntax'):
-            sig = dict(sig, cause='doc_closes_comment')
+        if self.injected and sig.get('kind') in ('malformed_output', 'js_syntax') and \
+                (self.inject_cause == 'doc_closes_comment' or sig.get('backend') == 'tsd_types'):
+            sig = dict(sig, cause=self.inject_cause)
         self.problems.append((what, sig, detail))
 
     def stat(self, key, n=1):
@@ -1099,6 +1110,11 @@ class Judge:
                 if kind == 'malformed':
                     self.P('tsd_types output %s cannot be scanned: %s' % (fn, msg),
                            {'kind': 'malformed_output', 'backend': 'tsd_types'}, file=fn, message=msg)
+        if self.injected and any(k == 'malformed' for sc in scans.values() for k, _m in sc['problems']):
+            # a `*/` of the spec ended a comment early and the scanner stopped there: what it did not reach is not
+            # missing from the output, so nothing beyond the malformed text is judged
+            self.stat('not_judged.after_closed_comment')
+            return scans
         decls = [d for sc in scans.values() for d in sc['decls']]
         by = {}
         for d in decls:
@@ -1466,6 +1482,9 @@ class Judge:
                 self.P('tsd_client[%s] output cannot be scanned: %s' % (label, msg),
                        {'kind': 'malformed_output', 'backend': 'tsd_client'}, message=msg)
                 return sc
+        if self.injected and any(k == 'malformed' for k, _m in (companion or {}).get('problems', [])):
+            self.stat('not_judged.after_closed_comment')         # the companion declarations are not all known
+            return sc
         routes = self.routes()
         clash = _dups([n for _ns, _r, n in routes])
         got_by = {}
@@ -1746,7 +1765,7 @@ def settle(ck, pd, reply, node_recs, check_syntax):
         if judge.injected:
             # a doc string of the spec ends the generated comments early: the text layer (not modelled) decides what
             # a scanner sees, so only the oracle judges these runs
-            ck.stat('not_compared.doc_closes_comment')
+            ck.stat('not_compared.%s' % judge.inject_cause)
             suite = 'decl.js.not_compared'
         if backend == 'tsd_types':
             scans = judge.tsd_types(label, opts, files)
@@ -1996,7 +2015,8 @@ def suite_grid(ck):
     specs = grid_specs()
     ck.stat('grid.specs', len(specs))
     before = ck.stats.get('spec.compile_failed', 0)
-    run_specs(ck, specs, full=True, syntax_every=4)
+    run_specs(ck, specs[:2], full=True, syntax_every=1)          # every option set on the bare and the nullable shapes
+    run_specs(ck, specs[2:], full=False, syntax_every=3)         # the base option sets on the container wrappers
     if ck.stats.get('spec.compile_failed', 0) != before:
         ck.note('a spec of the grid family is refused by the frontend: its cells are not explored')
         ck.stat('grid.refused', ck.stats.get('spec.compile_failed', 0) - before)
